@@ -11,7 +11,7 @@
     (append target, payload length) was defined before, and every field of the struct is
     defined at the end (or overwritten by the receiver right after recv: tflush.wait). *)
 From Coq Require Import NArith String List Bool.
-From P9V Require Import Codec.Layout Codec.Frame Codec.Reuse Codec.ReuseProofs Codec.Pool Codec.PoolProofs Codec.GenCheckReuse gen.CodecGen.
+From P9V Require Import Codec.Layout Codec.Frame Codec.Reuse Codec.ReuseProofs Codec.Pool Codec.PoolProofs Codec.PoolConc Codec.PoolConcProofs Codec.GenCheckReuse gen.CodecGen.
 Import ListNotations.
 Open Scope N_scope.
 Open Scope list_scope.
@@ -91,6 +91,22 @@ Theorem C18_pool_stale_refuted :
   exists prev prev' size stream, recv_buffer_stale prev size stream <> recv_buffer_stale prev' size stream.
 Proof. exact recv_buffer_stale_refuted. Qed.
 
+(** The same for appendBuffer as go2coq READS it (gen_recv_view: which view of the pooled buffer decides growth,
+    is handed to m.decode, is filled by ReadFrom; Pool.v recv_buffer_g interprets any such triple, with the
+    bytes between length and capacity of the pooled buffer modelled too): for the views the source uses, what
+    decode sees is independent of all previous content ... *)
+Theorem C18_pool_generated_independent : forall cmp dec rd, gen_recv_view = Some (cmp, dec, rd) ->
+  forall prev hid prev' hid' size stream,
+  recv_buffer_g cmp dec rd prev hid size stream = recv_buffer_g cmp dec rd prev' hid' size stream.
+Proof. exact recv_generated_independent. Qed.
+Print Assumptions C18_pool_generated_independent.
+
+(** ... and every other view handed to decode leaks (so the obligation recv_slices_spec is what carries it) *)
+Theorem C18_pool_generated_stale_refuted : forall cmp dec, dec <> SFirst ->
+  exists prev hid prev' hid' size stream,
+    recv_buffer_g cmp dec SFirst prev hid size stream <> recv_buffer_g cmp dec SFirst prev' hid' size stream.
+Proof. exact recv_buffer_g_stale_refuted. Qed.
+
 (** the payload slice a recycled payloader still holds: kept if of the right length, else replaced,
     then filled — equal to the received bytes either way (model of the branch in recv; by list reasoning) *)
 Theorem C18_payload_slice : forall old data, recv_payload old data = data.
@@ -115,6 +131,34 @@ Proof. exact treads_honest. Qed.
 Theorem C18_read_data_needs_cleanup_refuted :
   exists b cs, zero_buf b /\ Forall (call_ok (List.length b)) cs /\ treads false b cs <> map intended cs.
 Proof. exact treads_without_cleanup_refuted. Qed.
+
+(** Read replies under CONCURRENCY (Codec/PoolConc.v).  [gen_read_prog] is the sequence of pool operations
+    go2coq reads off tread.handle, send and rreadServerPayloader.PayloadCleanup (obligation: it is
+    Get, ReadAt, send, zeroing, Put).  Buffers have identity, the pool is a list of identities (a double Put
+    makes a duplicate), Get returns ANY pooled buffer or a new one.  For any number of Treads in flight on a
+    connection, every interleaving of their steps, every choice of the pool, honest and lazy backends: a reply
+    that reaches the wire carries exactly what the backend meant for that request. *)
+Theorem C18_read_data_concurrent : forall msize calls, (forall i, call_ok msize (calls i)) ->
+  forall sc i r, reply_of msize calls gen_read_prog sc i = Some r -> r = intended (calls i).
+Proof. exact read_prog_safe. Qed.
+Print Assumptions C18_read_data_concurrent.
+
+(** ... because no two requests in flight ever hold the same buffer *)
+Theorem C18_read_buffers_exclusive : forall msize calls, (forall i, call_ok msize (calls i)) ->
+  forall sc i j b, i <> j ->
+  let s := crun msize calls (cinit spec_ops) sc in
+  owns (th s i) b -> owns (th s j) b -> False.
+Proof. exact pool_conc_exclusive. Qed.
+
+(** the model can express the leak: a Put before the reply is sent (defer Put in tread.handle) hands two
+    requests in flight the same memory; without the zeroing a lazy backend shows an earlier request's bytes *)
+Theorem C18_read_early_put_refuted :
+  exists msize calls sc i r, (forall j, call_ok msize (calls j)) /\ reply_of msize calls bad_ops sc i = Some r /\ r <> intended (calls i).
+Proof. exact pool_conc_early_put_refuted. Qed.
+
+Theorem C18_read_no_zeroing_refuted :
+  exists msize calls sc i r, (forall j, call_ok msize (calls j)) /\ reply_of msize calls [OGet; ORead; OSend; OPut] sc i = Some r /\ r <> intended (calls i).
+Proof. exact pool_conc_no_zero_refuted. Qed.
 
 (** the three places of the source the pool model stands for have the modelled shape (generated facts):
     recv cuts the pooled slice to the exact size; tread.handle replies Data = buf[:n] for the n ReadAt
